@@ -87,41 +87,48 @@ log_float(double x, int bits)
 	}
 }
 
-/* One function per unsigned / signed / floating target type and macro form. */
+/* One function per unsigned / signed / floating target type and macro form.  The string, base and trailing arguments are
+ * expressions with side effects (a cursor over a list of strings, as in `PARSENUM(&n, *argv++)`): each must be evaluated exactly
+ * once, whatever the outcome - the string parsed must be the one the cursor pointed at. */
+#define S	(*sp++)
+#define BASE	(nb++, base)
+#define TRAIL	(nt++, trailing)
+#define CURSOR	const char * arr[4] = { s, "@decoy", "@decoy", "@decoy" }; const char ** sp = arr; int nb = 0, nt = 0
+#define EVALS	vt_int("sevals", (long long)(sp - arr)); vt_int("bevals", nb); vt_int("tevals", nt)
 #define DEF_UNSIGNED(NAME, T)									\
 static void pn_##NAME(const char * form, const char * s, int base, int trailing,		\
     intmax_t mini, intmax_t maxi, uintmax_t minu, uintmax_t maxu)				\
 {												\
-	T x = 0; int rc = -2;									\
-	if (strcmp(form, "2") == 0) rc = PARSENUM(&x, s);					\
-	else if (strcmp(form, "4i") == 0) rc = PARSENUM(&x, s, mini, maxi);			\
-	else if (strcmp(form, "4u") == 0) rc = PARSENUM(&x, s, minu, maxu);			\
-	else if (strcmp(form, "e4") == 0) rc = PARSENUM_EX(&x, s, base, trailing);		\
-	else if (strcmp(form, "e6i") == 0) rc = PARSENUM_EX(&x, s, mini, maxi, base, trailing);	\
-	else if (strcmp(form, "e6u") == 0) rc = PARSENUM_EX(&x, s, minu, maxu, base, trailing);	\
-	vt_int("rc", rc); vt_str("errno", errname(errno)); vt_u64s("val", (uint64_t)x);		\
+	T x = 0; int rc = -2; CURSOR;									\
+	if (strcmp(form, "2") == 0) rc = PARSENUM(&x, S);					\
+	else if (strcmp(form, "4i") == 0) rc = PARSENUM(&x, S, mini, maxi);			\
+	else if (strcmp(form, "4u") == 0) rc = PARSENUM(&x, S, minu, maxu);			\
+	else if (strcmp(form, "e4") == 0) rc = PARSENUM_EX(&x, S, BASE, TRAIL);		\
+	else if (strcmp(form, "e6i") == 0) rc = PARSENUM_EX(&x, S, mini, maxi, BASE, TRAIL);	\
+	else if (strcmp(form, "e6u") == 0) rc = PARSENUM_EX(&x, S, minu, maxu, BASE, TRAIL);	\
+	EVALS; vt_int("rc", rc); vt_str("errno", errname(errno)); vt_u64s("val", (uint64_t)x);		\
 }
 #define DEF_SIGNED(NAME, T)									\
 static void pn_##NAME(const char * form, const char * s, int base, int trailing,		\
     intmax_t mini, intmax_t maxi, uintmax_t minu, uintmax_t maxu)				\
 {												\
-	T x = 0; int rc = -2;									\
+	T x = 0; int rc = -2; CURSOR;									\
 	(void)minu; (void)maxu;									\
-	if (strcmp(form, "4i") == 0) rc = PARSENUM(&x, s, mini, maxi);				\
-	else if (strcmp(form, "e6i") == 0) rc = PARSENUM_EX(&x, s, mini, maxi, base, trailing);	\
-	vt_int("rc", rc); vt_str("errno", errname(errno)); vt_i64s("val", (int64_t)x);		\
+	if (strcmp(form, "4i") == 0) rc = PARSENUM(&x, S, mini, maxi);				\
+	else if (strcmp(form, "e6i") == 0) rc = PARSENUM_EX(&x, S, mini, maxi, BASE, TRAIL);	\
+	EVALS; vt_int("rc", rc); vt_str("errno", errname(errno)); vt_i64s("val", (int64_t)x);		\
 }
 #define DEF_FLOAT(NAME, T, BITS)								\
 static void pn_##NAME(const char * form, const char * s, int base, int trailing,		\
     double mind, double maxd)									\
 {												\
-	T x = 0; int rc = -2;									\
+	T x = 0; int rc = -2; CURSOR;									\
 	(void)base;										\
-	if (strcmp(form, "2") == 0) rc = PARSENUM(&x, s);					\
-	else if (strcmp(form, "4d") == 0) rc = PARSENUM(&x, s, mind, maxd);			\
-	else if (strcmp(form, "e4") == 0) rc = PARSENUM_EX(&x, s, 0, trailing);			\
-	else if (strcmp(form, "e6d") == 0) rc = PARSENUM_EX(&x, s, mind, maxd, 0, trailing);	\
-	vt_int("rc", rc); vt_str("errno", errname(errno)); log_float((double)x, BITS);		\
+	if (strcmp(form, "2") == 0) rc = PARSENUM(&x, S);					\
+	else if (strcmp(form, "4d") == 0) rc = PARSENUM(&x, S, mind, maxd);			\
+	else if (strcmp(form, "e4") == 0) rc = PARSENUM_EX(&x, S, 0, TRAIL);			\
+	else if (strcmp(form, "e6d") == 0) rc = PARSENUM_EX(&x, S, mind, maxd, 0, TRAIL);	\
+	EVALS; vt_int("rc", rc); vt_str("errno", errname(errno)); log_float((double)x, BITS);		\
 }
 DEF_UNSIGNED(u8, uint8_t)
 DEF_UNSIGNED(u16, uint16_t)
